@@ -29,6 +29,25 @@ struct ConvS {
 static std::string clean(const std::string& s) {
   std::string r; for (char c : s) r += (c == '"' || c == '\\' || (unsigned char)c < 32) ? ' ' : c; return r;
 }
+// every traversal idiom of the sample must show a legal sample: get_result(), explicit iterator loop, range-for, and the
+// idioms that COPY iterators (container range constructor, std::copy, std::for_each, the value of it++, named
+// iterators handed by value to a helper)
+static const int NIDIOMS = 8;
+static const char* const IDIOMS[NIDIOMS] = {"get_result", "iterator", "range-for", "range-ctor", "std::copy", "std::for_each", "postfix-value", "by-value"};
+template<class It, class F> static void walk_by_value(It first, It last, F f) { for (; first != last; ++first) f(*first); }
+template<class S, class F> static void traverse(const S& s, int idiom, F f) {
+  typedef typename std::decay<decltype(*s.begin())>::type T;
+  switch (idiom) {
+    case 0: { auto r = s.get_result(); for (const auto& v : r) f(v); break; }
+    case 1: { for (auto it = s.begin(); it != s.end(); ++it) f(*it); break; }
+    case 2: { for (const auto& v : s) f(v); break; }
+    case 3: { auto b = s.begin(); auto e = s.end(); std::vector<T> v(b, e); for (const auto& x : v) f(x); break; }
+    case 4: { auto b = s.begin(); auto e = s.end(); std::vector<T> v; std::copy(b, e, std::back_inserter(v)); for (const auto& x : v) f(x); break; }
+    case 5: { auto b = s.begin(); auto e = s.end(); std::for_each(b, e, f); break; }
+    case 6: { auto it = s.begin(); auto e = s.end(); while (it != e) { auto cur = it++; f(*cur); } break; }
+    default: { auto b = s.begin(); auto e = s.end(); walk_by_value(b, e, f); break; }
+  }
+}
 template<class S> static Ev& scal(Ev& e, const S& s) {
   double cw = s.get_cumulative_weight(); long long c = -1, res = 1000000;
   if (std::fabs(cw) < 2e9) { c = std::llround(cw); double d = std::fabs(cw - (double)c) * 1e6; res = d > 1e6 ? 1000000 : std::llround(d); }
@@ -111,10 +130,10 @@ template<class C> struct Seg {
     e.il("items", xs); scal(e, *sk[i]).emit();
   }
   void opIterate(int i) {
-    std::vector<long> xs; std::string threw;
-    try { for (auto it = sk[i]->begin(); it != sk[i]->end(); ++it) { xs.push_back(C::id(*it)); if (xs.size() > 100000) break; } }
+    std::vector<long> xs; std::string threw; int idiom = 1 + (int)g.below(NIDIOMS - 1);
+    try { traverse(*sk[i], idiom, [&xs](const T& v) { if (xs.size() < 100000) xs.push_back(C::id(v)); }); }
     catch (std::exception& ex) { threw = clean(ex.what()); if (threw.empty()) threw = "exception"; }
-    Ev e("GetResult"); e.i("id", i).str("via", "iterator"); tag(e, i);
+    Ev e("GetResult"); e.i("id", i).str("via", IDIOMS[idiom]); tag(e, i);
     if (!threw.empty()) { e.str("threw", threw).emit(); return; }
     e.il("items", xs); scal(e, *sk[i]).emit();
   }
@@ -246,6 +265,32 @@ template<class C> struct Seg {
       for (int i = 0; i < NS; i++) drop(i);
     }
   }
+  // reset() from every mode, then a full SECOND LIFE in every mode (0 empty, 1 unsaturated with fractional c, 2 saturated
+  // c = k, 3 grown by a merge), with results through every traversal idiom, and the reused sketch as a merge operand
+  void lifeMode(int i, int mode, long k) {
+    if (mode == 0 || !sk[i]) return;
+    if (mode == 1) { opUpdate(i, 4, false); for (long t = 0; t < std::max(1L, k / 2) && sk[i]; t++) opUpdate(i, g.range(1, 3), g.chance(40)); }
+    if (mode == 2) for (long t = 0; t < 3 * k + 4 && sk[i]; t++) opUpdate(i, g.range(1, 9), g.chance(40));
+    if (mode == 3) { for (long t = 0; t < 3 && sk[i]; t++) opUpdate(i, g.range(1, 9), false);
+                     opNew(3, k + g.range(0, 2)); for (long t = 0; t < 6; t++) opUpdate(3, g.range(1, 9), false);
+                     if (sk[i] && sk[3]) opMerge(i, 3, g.chance(50)); drop(3); }
+  }
+  void runSecondLife(long salt) {
+    for (int m1 = 0; m1 < 4; m1++) for (int m2 = 0; m2 < 4; m2++) {
+      long k = g.range(2, 8);
+      opNew(0, k); prof[0] = 1;
+      lifeMode(0, m1, k); if (!sk[0]) continue;
+      opGetResult(0); opIterate(0);
+      opReset(0);
+      if ((m1 + m2 + salt) % 2 == 0) { opGetResult(0); opIterate(0); }
+      lifeMode(0, m2, k); if (!sk[0]) continue;
+      opGetResult(0); for (int t = 0; t < 3; t++) opIterate(0);
+      opNew(1, k + 1); for (int t = 0; t < 5; t++) opUpdate(1, g.range(1, 9), false);
+      if (sk[1]) { if ((m1 + salt) % 2) opMerge(1, 0, g.chance(50)); else opMerge(0, 1, g.chance(50)); }
+      int d = sk[0] ? 0 : 1; if (sk[d]) { opGetResult(d); opIterate(d); opUpdate(d, 3, false); if (sk[d]) opGetResult(d); }
+      for (int i = 0; i < NS; i++) drop(i);
+    }
+  }
   // directed: merging an EMPTY sketch that was configured with a smaller k (both overloads, both directions)
   // merges of operands living in strongly different weight regimes: many very light items against few heavy ones
   // (weight ratio 10^2..10^4, all integers), so that the order by n and the order by cumulative weight disagree;
@@ -301,8 +346,21 @@ static void stat_event(vt::Rng& g, uint64_t seed, int which, bool merge) {
   static const long P[] = {1, 2, 4};
   int m = (int)g.range(6, 12); std::vector<long> w(m + 1, 0); long tot = 0;
   for (int i = 1; i <= m; i++) { w[i] = P[g.below(3)]; if (tot + w[i] > 40) w[i] = 1; tot += w[i]; }
-  int k = (int)g.range(2, 4), k2 = (int)g.range(2, 5); int split = (int)g.range(2, m - 2); bool viaIter = g.chance(50);
-  std::vector<long long> count(m, 0);
+  int k = (int)g.range(2, 4), k2 = (int)g.range(2, 5); int split = (int)g.range(2, m - 2); bool viaIter = g.chance(50); (void)viaIter;
+  // two regimes, alternating with file and event: saturated (c = k, an integer) and UNSATURATED with a fractional
+  // c = W / wmax < k, where every result really draws the partial item
+  bool unsat = ((uint64_t)which + seed) % 2 == 1;
+  if (unsat) {
+    for (int tries = 0; tries < 200; tries++) {
+      long wmax = *std::max_element(w.begin() + 1, w.end());
+      if (tot % wmax != 0 && tot <= 40) break;
+      int i = 1 + (int)g.below((uint64_t)m); tot -= w[i]; w[i] = P[g.below(3)]; tot += w[i];
+    }
+    long wmax = *std::max_element(w.begin() + 1, w.end());
+    long need = (tot + wmax - 1) / wmax;
+    k = (int)(need + g.range(1, 3)); k2 = (int)(need + g.range(0, 3));
+  }
+  std::vector<std::vector<long long>> count(NIDIOMS, std::vector<long long>(m, 0)); std::vector<long long> sizes(NIDIOMS, 0);
   std::string threw;
   for (int t = 0; t < T && threw.empty(); t++) try {
     random_utils::override_seed(seed * 1000003ULL + (uint64_t)which * 7919ULL + (uint64_t)t);
@@ -314,12 +372,18 @@ static void stat_event(vt::Rng& g, uint64_t seed, int which, bool merge) {
       for (int i = split + 1; i <= m; i++) b.update((int64_t)i, (double)w[i]);
       switch (t % 4) { case 0: a.merge(b); break; case 1: b.merge(a); a = b; break; case 2: a.merge(std::move(b)); break; default: b.merge(std::move(a)); a = b; }
     }
-    if (viaIter) { for (auto it = a.begin(); it != a.end(); ++it) { int64_t v = *it; if (v >= 1 && v <= m) count[(size_t)v - 1]++; } }
-    else { auto r = a.get_result(); for (auto v : r) if (v >= 1 && v <= m) count[(size_t)v - 1]++; }
+    for (int idiom = 0; idiom < NIDIOMS; idiom++) {          // each traversal draws the fractional item afresh
+      std::vector<long long>& cn = count[idiom]; long long& sz = sizes[idiom];
+      traverse(a, idiom, [&cn, &sz, m](const int64_t& v) { sz++; if (v >= 1 && v <= m) cn[(size_t)v - 1]++; });
+    }
   } catch (std::exception& ex) { threw = clean(ex.what()); if (threw.empty()) threw = "exception"; }
   std::vector<long> ws(w.begin() + 1, w.end());
   Ev e("Stat"); if (!threw.empty()) e.str("threw", threw);
-  e.str("what", merge ? "merge" : "sketch").i("T", T).i("k", k).i("k2", k2).i("split", split).b("viaIter", viaIter).il("w", ws).il("count", count).emit();
+  e.str("what", merge ? "merge" : "sketch").i("T", T).i("k", k).i("k2", k2).i("split", split).b("unsaturated", unsat).il("w", ws);
+  std::string cs = "[", ns = "[";
+  for (int idiom = 0; idiom < NIDIOMS; idiom++) { Ev a("x"); a.s = ""; a.il("c", count[idiom]); if (idiom) { cs += ","; ns += ","; } cs += a.s.substr(a.s.find('[')); ns += "\""; ns += IDIOMS[idiom]; ns += "\""; }
+  cs += "]"; ns += "]";
+  e.raw("idioms", ns).raw("counts", cs).il("sizes", sizes).emit();
 }
 
 int main(int argc, char** argv) {
@@ -339,6 +403,11 @@ int main(int argc, char** argv) {
   if (vt::argl(argc, argv, "--edges", 1)) {
     { Ev("Begin").i("seg", segno++).str("type", "i64").str("kind", "directed-restore-edges").emit(); Seg<ConvI> s(g, maxk); s.directedRestoreEdges(); }
     { Ev("Begin").i("seg", segno++).str("type", "str").str("kind", "directed-restore-edges").emit(); Seg<ConvS> s(g, maxk); s.directedRestoreEdges(); }
+  }
+  if (vt::argl(argc, argv, "--lives", 1)) {
+    bool str = (seed % 2) == 1;
+    Ev("Begin").i("seg", segno++).str("type", str ? "str" : "i64").str("kind", "second-life").emit();
+    if (str) { Seg<ConvS> s(g, maxk); s.runSecondLife((long)seed); } else { Seg<ConvI> s(g, maxk); s.runSecondLife((long)seed); }
   }
   long regimes = vt::argl(argc, argv, "--regimes", 24);
   if (regimes > 0) {
